@@ -519,11 +519,13 @@ def _classify_change(model, which, a, b, stale):
     scaling-roundtrip : every changed entry belongs to a variable with solver scaling (ref/ref0) and moved by no more
         than the round-off of the map phys -> (y-ref0)/(ref-ref0) -> phys, which every API entry point applies to
         the whole vector (System._scaled_context_all).
+    perturbed-evaluation-leaves-discrete-outputs (assigned by the caller) : a finite-difference based call leaves the
+        discrete outputs that `compute` wrote at the last perturbed point.
     stale-explicit-apply-roundoff : the outputs hold a user-set value that is not the component's own result
         (set_val without run_model) and moved by round-off only: ExplicitComponent._apply_nonlinear restores the
         outputs as y_new - (y_new - y_old).
     """
-    if which not in ('inputs', 'outputs') or a.shape != b.shape:
+    if which not in ('inputs', 'outputs') or a is None or a.shape != b.shape:
         return ''
     idx = np.nonzero(a != b)[0]
     if idx.size == 0 or not (np.all(np.isfinite(a[idx])) and np.all(np.isfinite(b[idx]))):
@@ -843,8 +845,24 @@ def _restore_relevance(model, saved):
         r._active = act
 
 
+_COMPJAC_ATTRS = ('_jacobian', '_jac_wrapper', '_approx_schemes', '_approx_subjac_keys', '_old_relevance')
+
+
+def _save_compjac(model):
+    from openmdao.core.component import Component
+    return [(c, {a: getattr(c, a) for a in _COMPJAC_ATTRS if hasattr(c, a)})
+            for c in model.system_iter(typ=Component, recurse=True)]
+
+
+def _restore_compjac(model, saved):
+    for c, d in saved:
+        for a, v in d.items():
+            setattr(c, a, v)
+
+
 MECHS = [('leftover-linear-vectors', ('lin',)),
          ('leftover-relevance-state', ('lin', 'relev')),
+         ('approximations-pruned-by-relevance', ('lin', 'resid', 'compjac')),
          ('leftover-residual-vector', ('lin', 'resid')),
          ('broyden-jacobian-carried-over', ('lin', 'broyden')),
          ('approx-options-overwritten', ('lin', 'approx'))]
@@ -980,6 +998,8 @@ class HistoryRun:
             saved['resid'] = model._residuals.asarray(copy=True)
         if 'relev' in interventions:
             saved['relev'] = _save_relevance(model)
+        if 'compjac' in interventions:
+            saved['compjac'] = _save_compjac(model)
         try:
             res = _query(prob, op, plan)
             self.count('obs:' + lab)
@@ -1002,6 +1022,10 @@ class HistoryRun:
             self.count('obs:discrete-snapshots')
         for which, txt in before.diff(after):
             mech = _classify_change(model, which, getattr(before, which, None), getattr(after, which, None), stale)
+            if which == 'discrete-outputs' and (lab.startswith(('check_partials', 'check_totals')) or
+                                                lab == 'compute_totals-approx'):
+                # these calls evaluate components at perturbed points; the discrete outputs written there stay
+                mech = 'perturbed-evaluation-leaves-discrete-outputs'
             if mech:
                 key = '%s:%s-changed:%s' % (mech, which, lab)
             else:
@@ -1018,6 +1042,8 @@ class HistoryRun:
             model._residuals.set_val(saved['resid'])
         if 'relev' in saved:
             _restore_relevance(model, saved['relev'])
+        if 'compjac' in saved:
+            _restore_compjac(model, saved['compjac'])
         if op.get('keep'):
             self.results[i] = copy.deepcopy(res)
         return stale
